@@ -45,6 +45,13 @@ def dispatch (kind : String) (alg : Int) : Option SchemeClass :=
     if alg = -8 then some .eddsa else none
   else none
 
+/-- C05: the TCG vendor-id registry (TCG TPM Vendor ID Registry 1.07), 4-byte ids as upper-case hex -/
+def tcgVendorIds : List String :=
+  ["414D4400", "414E5400", "41544D4C", "4252434D", "4353434F", "464C5953", "524F4343", "474F4F47",
+   "48504900", "48504500", "48495349", "49424D00", "49465800", "494E5443", "4C454E00", "4D534654",
+   "4E534D20", "4E545A00", "4E534700", "4E544300", "51434F4D", "534D534E", "53454345", "534E5300",
+   "534D5343", "53544D20", "54584E00", "57454300", "5345414C"]
+
 /-- C07: the counter rule -/
 def counterOk (c : Nat) (s : Int) : Prop := (c : Int) > s ∨ (c = 0 ∧ s = 0)
 
